@@ -105,6 +105,7 @@ package skchia
 //@   ensures list-wf: listOK(result)
 
 //@ func (*SpaceKeeper).disuseWorkSpace
+//@   requires called-with-the-state-lock-held: held[addr(sk.stateLock)]
 //@   requires ws != nil && ws.id != nil
 //@   requires list-wf: listOK(sk.workSpaceList)
 //@   modifies ws.using, sk.workSpaceList
@@ -151,26 +152,26 @@ package skchia
 
 // ---- batch actions: every space selected by the caller's flags gets exactly the single-space action (C09)
 //@ func (*SpaceKeeper).PlotMultiWS
-//@   assert-at call getWsByFlags selects-by-the-flags-it-was-given: arg0 == sk.workSpaceList && arg1 == old(flags)
+//@   assert-at call selectWorkSpaces selects-by-the-flags-it-was-given: arg0 == sk && arg1 == old(flags)
 //@   assert-at call PlotWS applies-the-action-to-each-selected-space: arg1 == lastresult("String")
-//@   assert-at call String id-of-the-selected-space: arg0 == lastresult("getWsByFlags")[#iter].id
+//@   assert-at call String id-of-the-selected-space: arg0 == lastresult("selectWorkSpaces")[#iter].id
 //@ func (*SpaceKeeper).MineMultiWS
-//@   assert-at call getWsByFlags selects-by-the-flags-it-was-given: arg0 == sk.workSpaceList && arg1 == old(flags)
+//@   assert-at call selectWorkSpaces selects-by-the-flags-it-was-given: arg0 == sk && arg1 == old(flags)
 //@   assert-at call MineWS applies-the-action-to-each-selected-space: arg1 == lastresult("String")
-//@   assert-at call String id-of-the-selected-space: arg0 == lastresult("getWsByFlags")[#iter].id
+//@   assert-at call String id-of-the-selected-space: arg0 == lastresult("selectWorkSpaces")[#iter].id
 //@ func (*SpaceKeeper).StopMultiWS
-//@   assert-at call getWsByFlags selects-by-the-flags-it-was-given: arg0 == sk.workSpaceList && arg1 == old(flags)
+//@   assert-at call selectWorkSpaces selects-by-the-flags-it-was-given: arg0 == sk && arg1 == old(flags)
 //@   assert-at call StopWS applies-the-action-to-each-selected-space: arg1 == lastresult("String")
-//@   assert-at call String id-of-the-selected-space: arg0 == lastresult("getWsByFlags")[#iter].id
+//@   assert-at call String id-of-the-selected-space: arg0 == lastresult("selectWorkSpaces")[#iter].id
 //@ func (*SpaceKeeper).RemoveMultiWS
-//@   assert-at call getWsByFlags selects-by-the-flags-it-was-given: arg0 == sk.workSpaceList && arg1 == old(flags)
+//@   assert-at call selectWorkSpaces selects-by-the-flags-it-was-given: arg0 == sk && arg1 == old(flags)
 //@   assert-at call RemoveWS applies-the-action-to-each-selected-space: arg1 == lastresult("String")
-//@   assert-at call String id-of-the-selected-space: arg0 == lastresult("getWsByFlags")[#iter].id
+//@   assert-at call String id-of-the-selected-space: arg0 == lastresult("selectWorkSpaces")[#iter].id
 //@ func (*SpaceKeeper).DeleteMultiWS
 //@   attr effect:fs.remove
-//@   assert-at call getWsByFlags selects-by-the-flags-it-was-given: arg0 == sk.workSpaceList && arg1 == old(flags)
+//@   assert-at call selectWorkSpaces selects-by-the-flags-it-was-given: arg0 == sk && arg1 == old(flags)
 //@   assert-at call DeleteWS applies-the-action-to-each-selected-space: arg1 == lastresult("String")
-//@   assert-at call String id-of-the-selected-space: arg0 == lastresult("getWsByFlags")[#iter].id
+//@   assert-at call String id-of-the-selected-space: arg0 == lastresult("selectWorkSpaces")[#iter].id
 
 // ---- state queries agree with the flag filter (C09): both queries list the configured spaces (workSpaceList), all of
 // them for SFAll and otherwise exactly those getWsByFlags selects from that list for the flags asked, one entry each,
@@ -191,3 +192,11 @@ package skchia
 //@   assert-at return#1 one-entry-per-configured-space: len(result0) == len(sk.workSpaceList)
 //@   assert-at return#2 one-entry-per-selected-space: len(result0) == len(lastresult("getWsByFlags"))
 //@   loop #2 invariant one-entry-per-visited-space: len(result) == #iter
+
+// ---- the configured-space list is read and written under the state lock (C13, C09); callers without the lock get a
+// private selection through selectWorkSpaces
+//@ type SpaceKeeper protects workSpaceList reads held[addr(this.stateLock)] || rheld[addr(this.stateLock)] writes held[addr(this.stateLock)]
+//@ func (*SpaceKeeper).selectWorkSpaces
+//@   requires lock-entry: skUnlocked(sk)
+//@   assert-at call getWsByFlags from-the-configured-list-by-the-flags-asked-under-the-read-lock: arg0 == sk.workSpaceList && arg1 == flags && rheld[addr(sk.stateLock)]
+//@   assert-at return the-selection-is-returned: result == lastresult("getWsByFlags")
